@@ -140,11 +140,12 @@ Qed.
 Section RunProofs.
   Variable St : Type.
   Variable body : mid -> list arg -> St -> Z -> bres St.
+  Variable after_mint : mid -> list arg -> St -> Z -> bres St.
   Variable transfer : St -> Z -> St.
 
-  Notation run_handler := (run_handler St body).
-  Notation run_pc := (run_pc St body).
-  Notation evm_call := (evm_call St body transfer).
+  Notation run_handler := (run_handler St body after_mint).
+  Notation run_pc := (run_pc St body after_mint).
+  Notation evm_call := (evm_call St body after_mint transfer).
 
   Lemma charge_bounds : forall P g1 u, 0 <= g1 -> 0 <= charge P g1 u <= g1.
   Proof.
@@ -180,8 +181,8 @@ Section RunProofs.
     0 <= gas -> 0 <= r_left (evm_call F p k value gas inp st) <= gas.
   Proof.
     intros F p k value gas inp st H. unfold Model.evm_call.
-    match goal with |- context [Model.run_pc St body ?a ?b ?c4 ?c ?d ?e ?f ?g] =>
-      pose proof (run_pc_left a b c4 c d e f g H) as B; destruct (Model.run_pc St body a b c4 c d e f g) as [o l s] end.
+    match goal with |- context [Model.run_pc St body after_mint ?a ?b ?c4 ?c ?d ?e ?f ?g] =>
+      pose proof (run_pc_left a b c4 c d e f g H) as B; destruct (Model.run_pc St body after_mint a b c4 c d e f g) as [o l s] end.
     simpl in *. destruct o; simpl; lia.
   Qed.
 
@@ -191,8 +192,8 @@ Section RunProofs.
     r_st (evm_call F p k value gas inp st) = st /\ r_left (evm_call F p k value gas inp st) = 0.
   Proof.
     intros F p k value gas inp st. unfold Model.evm_call.
-    match goal with |- context [Model.run_pc St body ?a ?b ?c4 ?c ?d ?e ?f ?g] =>
-      destruct (Model.run_pc St body a b c4 c d e f g) as [o l s] end.
+    match goal with |- context [Model.run_pc St body after_mint ?a ?b ?c4 ?c ?d ?e ?f ?g] =>
+      destruct (Model.run_pc St body after_mint a b c4 c d e f g) as [o l s] end.
     simpl. destruct o; simpl; intro H; try discriminate; split; reflexivity.
   Qed.
 
@@ -205,13 +206,19 @@ Section RunProofs.
     | GNone => True
     end.
 
+  (** the body's final answer: directly, or through the mint step *)
+  Definition body_ok (m : mid) (args : list arg) (st : St) (lim : Z) (st' : St) (u : Z) : Prop :=
+    body m args st lim = BOk st' u \/
+    exists st1 sup amt, body m args st lim = BMint st1 sup amt /\ after_mint m args st1 lim = BOk st' u.
+
   Lemma run_handler_ok : forall F P mf ro value g1 args st,
     r_out (run_handler F P mf ro value g1 args st) = Ok ->
     guard_passes mf ro value /\ validate F (mf_id mf) args = VPass /\
-    exists st' u, body (mf_id mf) args st g1 = BOk st' u /\ r_st (run_handler F P mf ro value g1 args st) = st'.
+    exists st' u, body_ok (mf_id mf) args st g1 st' u /\ r_st (run_handler F P mf ro value g1 args st) = st'.
   Proof.
-    intros F P mf ro value g1 args st. unfold Model.run_handler, guard_passes, oog.
-    repeat dmatch; simpl; intro H; try discriminate; (split; [auto|split; [reflexivity|eauto]]).
+    intros F P mf ro value g1 args st. unfold Model.run_handler, guard_passes, oog, body_ok.
+    repeat dmatch; simpl; intro H; try discriminate;
+      (split; [auto|split; [reflexivity|]]); eauto 10.
   Qed.
 
   Lemma run_pc_ok : forall F P c4 ro value gas inp st,
@@ -220,7 +227,7 @@ Section RunProofs.
       selected P inp = Some mf /\ i_unpack inp = Some args /\ mf_in_switch mf = true /\
       required_gas F P c4 inp = GGas rq /\
       guard_passes mf ro value /\ validate F (mf_id mf) args = VPass /\
-      exists st' u, body (mf_id mf) args st (gas - rq) = BOk st' u /\ r_st (run_pc F P c4 ro value gas inp st) = st'.
+      exists st' u, body_ok (mf_id mf) args st (gas - rq) st' u /\ r_st (run_pc F P c4 ro value gas inp st) = st'.
   Proof.
     intros F P c4 ro value gas inp st. unfold Model.run_pc.
     destruct (required_gas F P c4 inp) as [|rq] eqn:RG; simpl; [discriminate|].
@@ -236,7 +243,7 @@ Section RunProofs.
   (** where a Panic can come from *)
   Lemma run_handler_panic : forall F P mf ro value g1 args st,
     r_out (run_handler F P mf ro value g1 args st) = Panic ->
-    validate F (mf_id mf) args = VPanic \/ pf_oog_deferred P = false.
+    validate F (mf_id mf) args = VPanic \/ pf_oog_deferred P = false \/ f_supply_guard F = false.
   Proof.
     intros F P mf ro value g1 args st. unfold Model.run_handler, oog.
     repeat dmatch; simpl; intro H; try discriminate; auto.
@@ -244,7 +251,7 @@ Section RunProofs.
 
   Lemma run_pc_panic : forall F P c4 ro value gas inp st,
     r_out (run_pc F P c4 ro value gas inp st) = Panic ->
-    f_len_guard F = false \/ pf_oog_deferred P = false \/
+    f_len_guard F = false \/ pf_oog_deferred P = false \/ f_supply_guard F = false \/
     exists mf args, selected P inp = Some mf /\ i_unpack inp = Some args /\ validate F (mf_id mf) args = VPanic.
   Proof.
     intros F P c4 ro value gas inp st. unfold Model.run_pc.
@@ -256,8 +263,8 @@ Section RunProofs.
       destruct (selected P inp) as [mf|] eqn:S; simpl; [|discriminate].
       destruct (i_unpack inp) as [args|] eqn:U; simpl; [|discriminate].
       destruct (mf_in_switch mf) eqn:SW; simpl; [|discriminate].
-      intro H. apply run_handler_panic in H. destruct H as [H|H]; [|auto].
-      right. right. exists mf, args. auto.
+      intro H. apply run_handler_panic in H. destruct H as [H|[H|H]]; [|auto|auto].
+      right. right. right. exists mf, args. auto.
   Qed.
 
   Lemma evm_call_out : forall F p k value gas inp st,
@@ -266,8 +273,8 @@ Section RunProofs.
              (if transfers k && negb (value =? 0) then transfer st value else st)).
   Proof.
     intros. unfold Model.evm_call.
-    match goal with |- context [Model.run_pc St body ?a ?b ?c4 ?c ?d ?e ?f ?g] =>
-      destruct (Model.run_pc St body a b c4 c d e f g) as [o l s] end.
+    match goal with |- context [Model.run_pc St body after_mint ?a ?b ?c4 ?c ?d ?e ?f ?g] =>
+      destruct (Model.run_pc St body after_mint a b c4 c d e f g) as [o l s] end.
     destruct o; reflexivity.
   Qed.
 
@@ -291,7 +298,7 @@ Section RunProofs.
     apply run_pc_panic in H.
     pose proof (oog_deferred_of F p PO) as OD.
     unfold panic_ok in PO. repeat (apply andb_prop in PO as [PO ?]).
-    destruct H as [H|[H|[mf [args [S [U V]]]]]]; try congruence.
+    destruct H as [H|[H|[H|[mf [args [S [U V]]]]]]]; try congruence.
     unfold input_wf in W. rewrite U in W.
     apply (validate_no_panic F (mf_id mf) args); [|assumption|assumption].
     unfold guards_all. repeat (apply andb_true_intro; split); assumption.
@@ -310,9 +317,20 @@ Section RunProofs.
   Qed.
 
   (** bodies of methods that are not state-changing are read-only keeper queries *)
+  Definition keeps (b : bres St) (st : St) : Prop :=
+    match b with BOk st' _ | BErr st' _ | BOog st' | BMint st' _ _ => st' = st end.
   Definition query_bodies_readonly : Prop :=
     forall m args st lim, can_mutate m = false ->
-      match body m args st lim with BOk st' _ | BErr st' _ | BOog st' => st' = st end.
+      keeps (body m args st lim) st /\ keeps (after_mint m args st lim) st.
+
+  Lemma body_ok_readonly : forall m args st lim st' u,
+    query_bodies_readonly -> can_mutate m = false -> body_ok m args st lim st' u -> st' = st.
+  Proof.
+    intros m args st lim st' u QB CM [B|[st1 [sup [amt [B A]]]]].
+    - destruct (QB m args st lim CM) as [K _]. rewrite B in K. exact K.
+    - destruct (QB m args st lim CM) as [K _]. rewrite B in K. simpl in K. subst st1.
+      destruct (QB m args st lim CM) as [_ K2]. rewrite A in K2. exact K2.
+  Qed.
 
   (** a successful run in read-only mode leaves the state as it was *)
   Lemma run_pc_readonly_state : forall F P c4 value gas inp st,
@@ -326,7 +344,7 @@ Section RunProofs.
     pose proof (method_ok_parts _ (method_ok_of _ _ _ PO S)) as [_ [_ [MG [_ _]]]].
     destruct (can_mutate (mf_id mf)) eqn:CM.
     - exfalso. unfold guard_passes in GP. rewrite (MG eq_refl) in GP. discriminate.
-    - specialize (QB (mf_id mf) args st (gas - rq) CM). rewrite B in QB. subst st'.
+    - pose proof (body_ok_readonly _ _ _ _ _ _ QB CM B). subst st'.
       split; [assumption|]. exists mf. auto.
   Qed.
 
@@ -341,7 +359,7 @@ Section RunProofs.
     apply run_pc_ok in H. destruct H as [mf' [args [rq [S' [U [SW [RG [GP [V [st' [u [B E]]]]]]]]]]]].
     rewrite S in S'. inversion S'. subst mf'.
     pose proof (method_ok_parts _ (method_ok_of _ _ _ PO S)) as [_ [_ [_ [MV _]]]].
-    specialize (QB (mf_id mf) args st (gas - rq) (MV AV)). rewrite B in QB. subst st'. assumption.
+    pose proof (body_ok_readonly _ _ _ _ _ _ QB (MV AV) B). subst st'. assumption.
   Qed.
 
   Lemma evm_call_ok_st : forall F p k value gas inp st,
@@ -351,8 +369,8 @@ Section RunProofs.
             (if transfers k && negb (value =? 0) then transfer st value else st)).
   Proof.
     intros F p k value gas inp st. unfold Model.evm_call.
-    match goal with |- context [Model.run_pc St body ?a ?b ?c4 ?c ?d ?e ?f ?g] =>
-      destruct (Model.run_pc St body a b c4 c d e f g) as [o l s] end.
+    match goal with |- context [Model.run_pc St body after_mint ?a ?b ?c4 ?c ?d ?e ?f ?g] =>
+      destruct (Model.run_pc St body after_mint a b c4 c d e f g) as [o l s] end.
     destruct o; simpl; intro H; try discriminate; reflexivity.
   Qed.
 
@@ -361,8 +379,8 @@ Section RunProofs.
     r_out (evm_call F p k value gas inp st) = Ok \/ r_st (evm_call F p k value gas inp st) = st.
   Proof.
     intros F p k value gas inp st. unfold Model.evm_call.
-    match goal with |- context [Model.run_pc St body ?a ?b ?c4 ?c ?d ?e ?f ?g] =>
-      destruct (Model.run_pc St body a b c4 c d e f g) as [o l s] end.
+    match goal with |- context [Model.run_pc St body after_mint ?a ?b ?c4 ?c ?d ?e ?f ?g] =>
+      destruct (Model.run_pc St body after_mint a b c4 c d e f g) as [o l s] end.
     destruct o; simpl; intro H; auto. congruence.
   Qed.
 
